@@ -13,7 +13,11 @@ pub fn run(t: &[&str]) -> String {
         }
         "dis" => crate::catch(move || {
             let v = rbpf::disassembler::to_insn_vec(&b);
-            format!("ok {}", v.iter().map(|e| format!("{:02x}~{}~{}~{:02x}~{:02x}~{:04x}~{:016x}", e.opc, e.name, e.desc, e.dst, e.src, e.off as u16, e.imm as u64)).collect::<Vec<_>>().join(";"))
+            // echo: the texts of all entries, one per line (the model reads them back with its proved assembler: C15's "its text
+            // renders those operands in the assembler's syntax")
+            let texts = v.iter().map(|e| e.desc.clone()).collect::<Vec<_>>().join("\n");
+            format!("ok {} @ texts={}", v.iter().map(|e| format!("{:02x}~{}~{}~{:02x}~{:02x}~{:04x}~{:016x}", e.opc, e.name, e.desc, e.dst, e.src, e.off as u16, e.imm as u64)).collect::<Vec<_>>().join(";"),
+                    if texts.is_empty() { "-".to_string() } else { hex(texts.as_bytes()) })
         }),
         "rt" => {
             let d = std::panic::catch_unwind(|| rbpf::disassembler::to_insn_vec(&b));
@@ -168,6 +172,27 @@ pub fn gen_asm(w: &mut impl Write, thorough: bool, seed: u64) {
             t += match r.below(3) { 0 => "\n", 1 => "\n\t", _ => " \n" };
         }
         emit_want(w, &t, &want);
+    }
+    // unknown mnemonics derived from documented ones (suffix / prefix / case / truncation), with the operands of the original:
+    // each must be refused (want=err) unless the derived name is itself documented
+    {
+        let known: std::collections::HashSet<String> = ms.iter().map(|(n, _)| n.to_string()).collect();
+        for (name, sh) in &ms {
+            let mut vars: Vec<String> = vec![];
+            for suf in ["64", "32", "16", "8", "x", "w", "dw", "b", "h", "_", "0", "6464", "3264", "6432"] { vars.push(format!("{name}{suf}")); }
+            for pre in ["x", "j", "ld", "st", "_"] { vars.push(format!("{pre}{name}")); }
+            vars.push(name.to_uppercase());
+            { let mut c = name.chars(); if let Some(f) = c.next() { vars.push(format!("{}{}", f.to_uppercase(), c.as_str())); } }
+            if name.len() > 1 { vars.push(name[..name.len() - 1].to_string()); vars.push(name[1..].to_string()); }
+            for suf in ["64", "32"] { if let Some(st) = name.strip_suffix(suf) { vars.push(format!("{st}{}", if suf == "64" { "32" } else { "64" })); vars.push(format!("{st} {suf}")); } }
+            for v in vars {
+                if known.contains(&v) || v.is_empty() { continue; }
+                for regform in [false, true] {
+                    let t = render(&mut r, &v, *sh, 1, 2, 4, 5, regform);
+                    emit_want(w, &t, &None);
+                }
+            }
+        }
     }
     // wrong shapes / unknown mnemonics
     for (name, _) in &ms { for ops in ["", "r1", "r1, r2", "r1, 5", "5", "[r1+2]", "[r1+2], r3", "r1, [r2+3]", "r1, r2, 3", "r1, 2, 3", "r1, r2, r3", "1, 2", "r1, r2, 3, 4", "[r1+2], 5", "r1,", ", r1", "[r1 +2]", "[ r1+2]", "[r1+2 ]", "r 1"] {
